@@ -95,6 +95,18 @@ fn main() {
             let base_comb = sim_ir.comb_values.as_ptr() as usize;
             let mut vars = Vec::new();
             let port_ids: std::collections::HashMap<_, _> = sim_ir.ports.iter().map(|(p, id)| (*id, p.to_string())).collect();
+            // params / consts live in ordinary buffer cells initialised at build time and never written again
+            let const_paths: std::collections::HashSet<String> = ir
+                .components
+                .iter()
+                .filter_map(|c| match c {
+                    veryl_analyzer::ir::Component::Module(m) if m.name == top => Some(m),
+                    _ => None,
+                })
+                .flat_map(|m| m.variables.values())
+                .filter(|v| matches!(v.kind, veryl_analyzer::ir::VarKind::Param | veryl_analyzer::ir::VarKind::Const))
+                .map(|v| v.path.to_string())
+                .collect();
             for (id, v) in &sim_ir.module_variables.variables {
                 let mut elems = Vec::new();
                 for (k, cur) in v.current_values.iter().enumerate() {
@@ -105,7 +117,16 @@ fn main() {
                         ("comb", p.wrapping_sub(base_comb))
                     };
                     let next = v.next_values.get(k).map(|n| (*n as usize).wrapping_sub(base_ff));
-                    elems.push(serde_json::json!({"kind": kind, "off": off, "next_off": next}));
+                    let init = if const_paths.contains(&v.path.to_string()) && v.native_bytes <= 16 {
+                        let mut x: u128 = 0;
+                        for b in (0..v.native_bytes).rev() {
+                            x = (x << 8) | unsafe { *(*cur as *const u8).add(b) } as u128;
+                        }
+                        Some(format!("{x:x}"))
+                    } else {
+                        None
+                    };
+                    elems.push(serde_json::json!({"kind": kind, "off": off, "next_off": next, "const_init": init}));
                 }
                 vars.push(serde_json::json!({
                     "path": v.path.to_string(), "port": port_ids.get(id), "width": v.width,
